@@ -547,6 +547,19 @@ class FuncExec(ExprMixin, CallMixin):
                         if x is not None:
                             nxt.append((st2, x))
                             continue
+                        if (ot == "list" and isinstance(t.slice, ast.Slice) and t.slice.step is None and t.slice.upper is None
+                                and t.slice.lower is not None):
+                            # del l[a:]  -- truncation (a >= 0: keep min(len, a) elements; a < 0: keep max(len + a, 0))
+                            for st3, k, x3 in self.ev(t.slice.lower, st2):
+                                if x3 is not None:
+                                    nxt.append((st3, x3))
+                                    continue
+                                n = st3.heap.sel("$llen", o)
+                                a_ = as_int(k)
+                                keep = z3.If(a_ >= 0, z3.If(a_ < n, a_, n), z3.If(n + a_ > 0, n + a_, 0))
+                                st3.heap.store("$llen", o, keep)
+                                nxt.append((st3, None))
+                            continue
                         for st3, k, x3 in self.ev(t.slice, st2):
                             if x3 is not None:
                                 nxt.append((st3, x3))
@@ -586,6 +599,7 @@ class FuncExec(ExprMixin, CallMixin):
             c = self.eng.truthy(v, st2.heap)
             c = z3.simplify(c)
             if z3.is_true(c):
+                self.narrow_exact_types(s.test, st2)
                 out.extend(self.exec_block(s.body, st2))
             elif z3.is_false(c):
                 out.extend(self.exec_block(s.orelse, st2))
@@ -600,11 +614,39 @@ class FuncExec(ExprMixin, CallMixin):
                     cn = ast.unparse(t.args[1]).split(".")[-1]
                     if self.eng.ct.known(cn):
                         a.ltypes[t.args[0].id] = cn
+                self.narrow_exact_types(t, a)
                 if self.feasible(a):
                     out.extend(self.exec_block(s.body, a))
                 if self.feasible(b):
                     out.extend(self.exec_block(s.orelse, b))
         return out
+
+    def narrow_exact_types(self, test, st):
+        """`type(x) is T` (possibly inside and/or) in a branch condition: when the path condition of the
+        taken branch implies typeof(x) == T for a built-in container T, record it as the static type of x
+        (semantic narrowing: decided by the solver, not by the shape of the test)."""
+        if self.dry:
+            return
+        cands = {}
+        for n in ast.walk(test):
+            if (isinstance(n, ast.Compare) and len(n.ops) == 1 and isinstance(n.ops[0], (ast.Is, ast.Eq))
+                    and isinstance(n.left, ast.Call) and isinstance(n.left.func, ast.Name) and n.left.func.id == "type"
+                    and len(n.left.args) == 1 and isinstance(n.left.args[0], ast.Name)
+                    and isinstance(n.comparators[0], ast.Name) and n.comparators[0].id in ("tuple", "list", "dict")):
+                cands.setdefault(n.left.args[0].id, set()).add(n.comparators[0].id)
+        for name, ts in cands.items():
+            if name not in st.locals or st.ltypes.get(name):
+                continue
+            v = st.locals[name]
+            for tn in sorted(ts):
+                sol = z3.Solver()
+                sol.set("timeout", 500)
+                sol.add(*self.eng.axioms())
+                sol.add(*st.pc)
+                sol.add(smt.typeof(v) != self.eng.ct.cls(tn))
+                if sol.check() == z3.unsat:
+                    st.ltypes[name] = tn
+                    break
 
     def feasible(self, st):
         """Cheap pruning of dead paths (sound: only definite unsat prunes)."""
